@@ -156,3 +156,17 @@ PROPS["C08"] = {
         {"test": "^TestC08Exhaust$", "norapid": True, "quick": {"shards": 1}, "thorough": {"shards": 1}},
     ],
 }
+
+PROPS["C11"] = {
+    "level": "exploration",
+    "technique": "structured hostile-argument generation (rapid) for all 22 NFS and 6 MOUNT procedures interleaved with model-checked histories; native coverage-guided fuzzing of [procedure | XDR argument bytes] against a server rebuilt from a fixed image per iteration; oracles: no panic, watchdog, per-request allocation bound, reference model / fsck still hold afterwards",
+    "level_text": "Structured: in any state of a generated history (direct or through the XDR/RPC transport) raw calls hit every procedure with handles of length 0..64 and arbitrary content, valid handles with one field changed, dead handles, names of 0..5000 bytes, offsets/counts/sizes/cookies at 0, 2^31, 2^32-1, 2^63, 2^64-k and overflow pairs, out-of-range enum values; mutating requests with hostile values (count != data length, sizes up to 2^64-1, reads of 4 GB, oversized names and link targets) go through the reference oracle so that the model keeps tracking the state. Oracle per call: no panic (recover), reply within a 20 s watchdog, TotalAlloc growth <= 48 MB; every 12 steps and at the end the whole tree still equals the reference. Byte level: fuzz target rebuilt from a fixed populated image each iteration, seeded with valid encodings of every procedure plus hostile constants; same oracle plus GETATTR(root) and fsck afterwards. quick replays the corpus; thorough runs the coverage-guided campaign. Child processes: a fatal runtime error (out of memory) or a panic in a background goroutine kills the shard and is reported as a violation with the shard as replay.",
+    "level_note": "Not-well-formed messages (undecodable arguments) are outside the property and only counted. The 2 GB record-length allocation in go-rpcgen's framing is a dependency matter and not claimed. Wrong replies are other properties' subjects (they only cut a case short here).",
+    "rule": ("unit = one hostile call. Non-trivial: the call carried at least one out-of-domain field and reached a handler (structured: by construction; fuzz: the arguments decoded). distinct = FNV hash of the call description resp. of the input bytes."),
+    "assumptions": COMMON_ASSUMPTIONS,
+    "required_classes": ["hostile_calls", "case_via_rpc"],
+    "units": [
+        {"test": "^TestC11Hostile$", "oom_is_violation": True, "quick": {"checks": 100, "shards": 8, "steps": 40}, "thorough": {"checks": 2500, "shards": 12, "steps": 60}},
+        {"test": "^FuzzC11Args$", "fuzz": True, "oom_is_violation": True, "quick": {"shards": 1}, "thorough": {"shards": 1, "fuzztime": 600, "procs": 16, "timeout": 1500}},
+    ],
+}
